@@ -30,6 +30,23 @@ CLAIMS = {
             'abstract memory block; the 10 dimension-taking constructors/factories are interpreted over the window of unsupported arguments named by '
             'the property (dimension 1,7,8; non-square shapes; list lengths up to 64; indices up to d*d+2).',
             'static analysis: guard-dominance decided by abstract interpretation over the finite set of dimension pairs, with extent-checked abstract memory'),
+    'C04': ('other',
+            'Structural necessary conditions (the agreement with closed-form solutions to tolerance is a numerical statement about GSL and is declined): the GSL callback RHS -> set_system_pointers -> Derive '
+            'is interpreted on driver-style buffers for all 32 switch settings and several (nx,nsun,nrhos,nscalars) configurations with uninterpreted user terms indexed by their arguments, and the derivative buffer is '
+            'compared slot by slot with the documented equation; the flat-array layout is checked at every binding site; the GSL driver wiring in Evolve is checked against the fields it must read.',
+            'static analysis: abstract interpretation of the solver with uninterpreted user hooks and a summarised ODE driver; comparison with the documented right-hand side'),
+    'C05': ('other',
+            'The seven query functions are interpreted on a solver with symbolic state, symbolic ordered nodes and uninterpreted H0, with the query placed in every order relation to the nodes; the value is compared with '
+            'Tr(rho Evolve(op,H0(.),t-t_ini)) built from the C02/C03 tables (H0 argument, weights, bracketing nodes), and both-sided range rejection is required. Numerical value of the trace is declined.',
+            'static analysis: abstract interpretation with an explicit order oracle for the bracketing search; one-sided-comparison (range guard) rule'),
+    'C10': ('other',
+            'Structural necessary conditions: both Evolve branches advance the clock by dt; the no-numerics branch touches neither state nor driver; post-step re-aliasing uses the ini layout; a fresh driver per call; ini resets clock/views/cache keys; '
+            'each setter recomputes the OR of all five switches (all 64 cases); move operations transfer every field of the record declaration, re-point sys.params and disable the source. Equality of split vs single evolution within tolerance is numerical and declined.',
+            'static analysis: abstract interpretation of the solver state handling; field-completeness rule over the record declaration'),
+    'C17': ('other',
+            'Grid formulas compared with the affine form for nx=2..8 (both scales, all accepted scale names); vector overload guards; Get_i interpreted for nx=2..12 (thorough: ..33) with the query in every order relation to symbolic strictly increasing nodes: '
+            'only comparisons against node values are admitted, a bracketing index must be returned, outside x rejected on both sides. Bounded in nx, hence level other.',
+            'static analysis: abstract interpretation with symbolic ordered grids; comparison-shape rule for the bisection'),
     'C06': ('proof',
             'All 35 plane-rotation kernels (917 slot tables) are compared with R^dagger A R as trigonometric polynomials modulo sin^2+cos^2=1; '
             'the rotation sequences of RotateToB0/B1 are compared with the factor order of GetTransformationMatrix, each factor with the plane rotation '
